@@ -319,6 +319,16 @@ def check(ctx, src):
                             ctx.unres("O2", key, f"finalbody: {verdicts}")
                     else:
                         ctx.unres("O2", key, f"handlers: {a}; finalbody: {b}")
+    # --- expression context: _storeize rebuilds nested targets recursively and must hand its context constructor on
+    stz = comp.cp.func("HyASTCompiler._storeize")
+    if stz is not None:
+        ctxp = next((a.arg for a in stz.args.args[len(stz.args.args) - len(stz.args.defaults):]), None)
+        for c in pyq.calls(stz):
+            if dotted(c.func) == "self._storeize":
+                passed = len(c.args) >= 3 or any(k.arg == ctxp for k in c.keywords)
+                ctx.decide("O3", f"{comp.cp.rel}|_storeize|recursive call forwards {ctxp}|{norm(c)[:40]}", passed,
+                           f"`{norm(c)[:60]}` does not pass `{ctxp}` on: elements of a tuple/list target get the default Store context whatever the statement is",
+                           comp.cp.rel, c.lineno, witness="(del [a b]) -> ValueError: expression must have Del context but has Store instead")
     ctx.need(n_sites >= 150, f"only {n_sites} AST construction sites found (162 confirmed by hand)")
     ctx.floor("O0", 150)
     ctx.floor("O2", 15)
@@ -538,6 +548,27 @@ def _funnel(ctx, src, comp):
                     ctx.ok("FUNNEL", key, "internal invariant", nontrivial=False)
                 else:
                     ctx.unres("FUNNEL", key, f"raises {last} outside a pattern macro")
+    # bare next(): StopIteration is not a Hy error; outside a pattern macro it surfaces as "Internal Compiler Bug"
+    for m in (comp.rm, comp.cp):
+        for c in pyq.calls(m.tree):
+            if dotted(c.func) == "next" and len(c.args) == 1 and not c.keywords:
+                q = m.qual_of(c)
+                if not (q.startswith("compile_") or q.startswith("HyASTCompiler.")):
+                    continue
+                caught = False
+                for t, part in pyq.enclosing_try_parts(c):
+                    if part == "body" and any(h.type is None or any(x in norm(h.type) for x in ("StopIteration", "Exception")) for h in t.handlers):
+                        caught = True
+                gen = isinstance(c.args[0], ast.GeneratorExp)
+                top = m.enclosing_func(c)
+                while top is not None and m.enclosing_func(top) is not None:
+                    top = m.enclosing_func(top)
+                if top in comp.macro_funcs and m is comp.rm:
+                    ctx.ok("FUNNEL", f"{m.rel}|{q}|{norm(c)[:50]}", "inside a pattern macro: MacroExceptions converts StopIteration into HyMacroExpansionError", nontrivial=False)
+                    continue
+                ctx.decide("FUNNEL", f"{m.rel}|{q}|{norm(c)[:50]}", True if caught else (None if gen else False),
+                           f"`{norm(c)[:60]}` can raise StopIteration on malformed input (e.g. a keyword without a value at the end); it is neither given a default nor caught, "
+                           "so the user sees an internal compiler error instead of a Hy syntax error", m.rel, c.lineno, witness="(.m :a 1 :b) at top level", detail="inside try/except StopIteration")
     ctx.floor("FUNNEL", 12)
 
 
